@@ -78,6 +78,14 @@ impl SegmentIndexWriter {
                     format!("Failed to write index to file: {}. {error}", self.file_path)
                 })
                 .map_err(|_| IggyError::CannotSaveIndexToSegment)?;
+            // The write above only hands the bytes over, wait until they are in the file.
+            self.file
+                .flush()
+                .await
+                .with_error_context(|error| {
+                    format!("Failed to write index to file: {}. {error}", self.file_path)
+                })
+                .map_err(|_| IggyError::CannotSaveIndexToSegment)?;
         }
         if self.fsync {
             let _ = self.fsync().await;
